@@ -660,3 +660,81 @@ def rb1(proj, rep):
             rep.violation('RB1', construct, f'`{ast.unparse(st)}` has norm ({g.num})/({g.den}) with r = ||theta||; den - num = {D} is not positive on '
                           f'r >= 0' + (f' (first zero at r = {w:.4g})' if w is not None else '') + ': the image leaves the unit ball', m, st)
     return n
+
+
+# ------------------------------------------------------------------------------------------------ W5
+RULE_W5 = ('W5: an orthonormalisation `ret = M @ F` with F computed from a factorisation (matrix square root / eigh / Cholesky) is isometric only when the '
+           'factorised matrix is exactly the Gram matrix M^dagger M of the same M: the argument of the factorisation is `M.transpose(..).conj() @ M` '
+           'with no additive term (a regularisation eps*I gives X^dagger X = I - eps/(sigma^2+eps), not the identity).')
+
+_FACTOR = ('PSDMatrixSqrtm.apply', 'linalg.eigh', 'linalg.cholesky', 'linalg.cholesky_ex', 'sqrtm', 'linalg.svd')
+
+
+def w5(proj, rep, funcs):
+    rep.rule('W5', RULE_W5)
+    n = 0
+    for q in funcs:
+        fi = proj.func(q)
+        m = fi.module
+        rep.touch(m)
+        for st in ast.walk(fi.node):
+            if not (isinstance(st, ast.Assign) and isinstance(st.targets[0], ast.Name) and st.targets[0].id == 'ret'
+                    and isinstance(st.value, ast.BinOp) and isinstance(st.value.op, ast.MatMult) and isinstance(st.value.left, ast.Name)
+                    and isinstance(st.value.right, ast.Name)):
+                continue
+            M, F = st.value.left.id, st.value.right.id
+            blk = st._parent
+            body = blk.body if st in getattr(blk, 'body', []) else getattr(blk, 'orelse', [])
+            idx = body.index(st)
+            # definitions of the same block before `ret = M @ F`, in order; names are resolved by the LAST definition before the use
+            defs = []
+            for k2, s2 in enumerate(body[:idx]):
+                if isinstance(s2, ast.Assign):
+                    for t in (s2.targets[0].elts if isinstance(s2.targets[0], ast.Tuple) else [s2.targets[0]]):
+                        if isinstance(t, ast.Name):
+                            defs.append((k2, t.id, s2.value))
+
+            def lookup(name, before):
+                c2 = [(k2, v) for k2, nm, v in defs if nm == name and k2 < before]
+                return c2[-1] if c2 else (None, None)
+            local = {nm: v for _, nm, v in defs}
+            fact = None
+            fact_pos = None
+            work = [lookup(F, idx)]
+            seen = set()
+            while work and fact is None:
+                pos, e = work.pop()
+                if e is None or id(e) in seen:
+                    continue
+                seen.add(id(e))
+                for c in ast.walk(e):
+                    if isinstance(c, ast.Call) and ast.unparse(c.func).endswith(_FACTOR) and c.args:
+                        fact, fact_pos = c, pos
+                        break
+                    if isinstance(c, ast.Name) and c.id != M:
+                        work.append(lookup(c.id, pos))
+            n += 1
+            backend = 'torch' if 'torch' in ast.unparse(local.get(F) or st) else 'numpy'
+            construct = f'{q}[{backend}]'
+            if fact is None:
+                rep.undecided('W5', construct, f'factorisation feeding `{F}` not found', m, st)
+                n -= 1
+                continue
+            arg = fact.args[0]
+            if isinstance(arg, ast.Name):
+                _, v2 = lookup(arg.id, fact_pos)
+                if v2 is not None:
+                    arg = v2
+            t = ast.unparse(arg).replace(' ', '')
+            gram_ok = isinstance(arg, ast.BinOp) and isinstance(arg.op, ast.MatMult) and ast.unparse(arg.right) == M and 'conj' in ast.unparse(arg.left) \
+                and 'transpose' in ast.unparse(arg.left) and ast.unparse(arg.left).startswith(M + '.')
+            if gram_ok:
+                rep.ok('W5', construct, f'`{ast.unparse(fact)[:70]}` factorises exactly {M}^dagger {M}', m, st)
+            elif isinstance(arg, ast.BinOp) and isinstance(arg.op, (ast.Add, ast.Sub)):
+                rep.violation('W5', construct, f'the factorised matrix is `{t[:90]}`: a term is added to the Gram matrix {M}^dagger {M}, so `{M} @ {F}` is no longer an '
+                              f'isometry (X^dagger X = I - eps/(sigma^2+eps))', m, st)
+            else:
+                rep.undecided('W5', construct, f'factorised matrix `{t[:60]}` is not recognisably {M}^dagger {M}', m, st)
+                n -= 1
+    rep.count('W5.orthonormalisations', n)
+    return n
